@@ -79,8 +79,12 @@ def gen_valid(rng, maxn):
     fpx = fpi = None
     if mode == "values":
         fpx = [x[f] for f in F]
-        if rng.random() < 0.3:
+        r_ = rng.random()
+        if r_ < 0.3:
             rng.shuffle(fpx)
+        elif r_ < 0.45:
+            j = rng.randrange(len(fpx))
+            fpx.insert(j, fpx[j])
         if rng.random() < 0.2:
             fpx.append(fpx[0])
         if rng.random() < 0.3 and len(xref) >= 2:
@@ -91,8 +95,14 @@ def gen_valid(rng, maxn):
                 xref.insert(j, mid)
     elif mode == "indices":
         fpi = list(F)
-        if rng.random() < 0.3:
+        r_ = rng.random()
+        if r_ < 0.3:
             rng.shuffle(fpi)
+        elif r_ < 0.5:
+            # in increasing order, one or two fixed points named twice (a list merged from two sources)
+            for _ in range(rng.randint(1, 2)):
+                j = rng.randrange(len(fpi))
+                fpi.insert(j, fpi[j])
         if rng.random() < 0.2:
             fpi.append(fpi[0])
     yref = rng.values(len(xref))
